@@ -43,8 +43,79 @@ def handleMaxFlow (n : Nat) (arcs : Arcs) (s t : Nat) (impl : Option FlowT) (obj
   (Val.arr [Val.int o.value, ofTriples o.flow.positive, Val.ofNats o.vis, Val.int o.augs,
     Val.int o.cancels, Val.bool o.done, Val.bool (N.chkMaxFlow o.flow o.vis o.value), implChecks]).render
 
+/-! ### C09
+
+request `["mcf_st", n, arcs, s, t, demand, impls]`  (min_cost_flow / solve_assignment instances)
+request `["mcf_ts", n, arcs, supplies, impls]`      (network_simplex instances)
+  arcs  = `[[u, v, cap, cost], …]` per arc; impls = list of `null | [x, reportedCost]` with `x` a
+  per-arc flow reconstructed by the harness from an implementation's returned dict
+reply `[status, x, cost, pot, cut, iters, cancel, cert, implChecks]`
+  status ∈ feasible | infeasible | negcycle ; x/cost/pot (feasible) or cut (infeasible) from `ssp`
+  cert       : verified checker on the model's own answer (`chkMinCost` resp. `chkInfeas`)
+  implChecks : per impl `null | [chkFeas x, costF x, costF x == reportedCost]`
+-/
+
+def toArcs4? (v : Val) : Option (List Arc) := do
+  let rows ← v.toIntss?
+  rows.mapM fun r =>
+    match r with
+    | [a, b, c, w] => if a < 0 || b < 0 then none else some ⟨a.toNat, b.toNat, c, w⟩
+    | _ => none
+
+def toImpls? (v : Val) : Option (List (Option (List Int × Int))) := do
+  let xs ← v.toArr?
+  xs.mapM fun e =>
+    match e with
+    | Val.null => some none
+    | Val.arr [x, c] => do
+      let x ← x.toInts?
+      let c ← c.toInt?
+      some (some (x, c))
+    | _ => none
+
+def replyMinCost (I : Inst) (status : Inst.SStatus) (x : List Int) (cost : Int) (pot : List Int)
+    (cut : List Nat) (iters cancel : Nat) (impls : List (Option (List Int × Int))) : String :=
+  let sname := match status with
+    | .feasible => "feasible" | .infeasible => "infeasible" | .negcycle => "negcycle"
+  let cert := match status with
+    | .feasible => I.chkMinCost x pot cost
+    | .infeasible => I.chkInfeas cut
+    | .negcycle => false
+  let ichk := impls.map fun o =>
+    match o with
+    | none => Val.null
+    | some (ix, rep) =>
+      Val.arr [Val.bool (I.chkFeas ix), Val.int (I.costF (Inst.fl ix)), Val.bool (I.costF (Inst.fl ix) == rep)]
+  (Val.arr [Val.str sname, Val.ofInts x, Val.int cost, Val.ofInts pot, Val.ofNats cut, Val.int iters,
+    Val.int cancel, Val.bool cert, Val.arr ichk]).render
+
+def handleST (n : Nat) (arcs : List Arc) (s t : Nat) (d : Int)
+    (impls : List (Option (List Int × Int))) : String :=
+  let I := Inst.ofST n arcs s t d
+  let o := I.ssp s t d
+  replyMinCost I o.status o.x o.cost o.pot o.reach o.iters o.cancel impls
+
+def handleTS (n : Nat) (arcs : List Arc) (b : List Int) (impls : List (Option (List Int × Int))) : String :=
+  let I : Inst := ⟨n, arcs, b⟩
+  if lsum (List.range n) I.sup != 0 then
+    replyMinCost I .infeasible [] 0 [] (List.range n) 0 0 impls
+  else
+    let (J, d) := I.toST
+    let o := J.ssp n (n + 1) d
+    replyMinCost I o.status (o.x.take I.m) o.cost (o.pot.take n) (o.reach.filter (· < n)) o.iters o.cancel impls
+
 def handle (line : String) : String :=
   match request line with
+  | some ("mcf_st", [n, arcs, s, t, d, impls]) =>
+    match n.toNat?, toArcs4? arcs, s.toNat?, t.toNat?, d.toInt?, toImpls? impls with
+    | some n, some arcs, some s, some t, some d, some impls =>
+      if (Inst.mk n arcs []).valid && s < n && t < n then handleST n arcs s t d impls else err "invalid instance"
+    | _, _, _, _, _, _ => err "bad arguments"
+  | some ("mcf_ts", [n, arcs, b, impls]) =>
+    match n.toNat?, toArcs4? arcs, b.toInts?, toImpls? impls with
+    | some n, some arcs, some b, some impls =>
+      if (Inst.mk n arcs b).valid && b.length == n then handleTS n arcs b impls else err "invalid instance"
+    | _, _, _, _ => err "bad arguments"
   | some ("maxflow", [n, arcs, s, t, impl, obj]) =>
     match n.toNat?, toArcs? arcs, s.toNat?, t.toNat?, impl.toOpt? toFlowT?, obj.toOpt? Val.toInt? with
     | some n, some arcs, some s, some t, some impl, some obj => handleMaxFlow n arcs s t impl obj
